@@ -65,6 +65,16 @@ PROPS = {
             'MBTiles MIN/MAX SQL estimate-then-refine', 'tar/directory file-name parsing that feeds include_coord',
         ],
     ),
+    'C20': dict(
+        level='other',
+        verus=[],
+        kani=['limited_cache'],
+        not_decided=[
+            'capacities above the stand-in bound (CAP = 4): the inductive step is checked per capacity <= CAP only',
+            'the real std::collections::HashMap and slice sort (replaced by stand-ins with the assumed contract finite map / sorted permutation)',
+            'stamp counter overflow after 2^64 operations (assumed away)',
+        ],
+    ),
 }
 
 LEVEL = 'proof'
